@@ -9,11 +9,15 @@
                         (ordered field);
     C11_energy_rate     xᵀ W (A x) = ½ xᵀ(W A + Aᵀ W)x  — the rate of the stored energy;
     C11_eig             real form of `A v = λ v, v ≠ 0 ⇒ re λ ≤ 0` for a positive diagonal W.
-  Open: C11_structure_statement (the model's Ã, DQ have the block structure and a non-negative
-  resistive form for positive R).  The flow clause (t ↦ ½ x(t)ᵀ W x(t) antitone along exp(tA)) is
-  not formalised beyond its rate form C11_energy_rate + C11_lyapunov.
+    C11_structure       the executable model HAS the structure C11_lyapunov assumes: Jn·DQ = −DQ·J, and
+                        yᵀ(Jn Ã)y = Σ_b G_b (Δφ_b)² ≥ 0 for every network without negative conductances;
+    C11_model_lyapunov  hence xᵀ(W A + Aᵀ W)x ≤ 0 for the A the model returns (every RLC network,
+                        every naming / listing order, any certificates);
+    C11_model_eig       hence re λ ≤ 0 for every eigenpair of that A when all C, L are positive.
+  Nothing algebraic is left open.  The flow clause (t ↦ ½ x(t)ᵀ W x(t) antitone along exp(tA)) is not
+  formalised beyond its rate form C11_energy_rate + C11_model_lyapunov.
 -/
-import CC.Proofs.StateModel
+import CC.Proofs.StatePassive
 import Mathlib.LinearAlgebra.Matrix.Notation
 import Mathlib.Tactic.NormNum
 import Mathlib.Tactic.FinCases
@@ -108,23 +112,50 @@ example :
     simp [At, Jn, dotProduct, Matrix.mulVec, Matrix.mul_apply, Fin.sum_univ_succ]
     ring
 
-/-! ### open statements -/
+/-! ### the executable model has the structure, hence is passive -/
 
-/-- OPEN.  For the `w = 0` network of an RLC + ideal-source circuit with strictly positive
-resistances the model's `Ã` and `DQ` have the structure `C11_lyapunov` assumes: with
-`Jn = diag(1 on node rows, −1 on voltage-source rows)` and `J = diag(−1 on capacitor states,
-+1 on inductor states)`, `Jn·DQ = −DQ·J` and `yᵀ(Jn Ã)y ≥ 0` for every `y`. -/
-def C11_structure_statement : Prop :=
-  ∀ (N : Net String ℚ) (cvals lvals : ValDict ℚ) (Delta : List (List ℚ)),
-    N.check = .ok () → ssDelta N cvals = .ok Delta →
-    (∀ b ∈ N.branches, match b.e with
-      | .norton Z V => 0 ≤ Z ∧ (Z ≠ 0 → V = 0)
-      | .thevenin Y _ => Y = 0) →
-    (∀ id ∈ lvals.keys, id ∈ N.vsIds) →
-    let ny := N.nY; let ns := ssNStates N cvals lvals
-    let Jn : Matrix (Fin ny) (Fin ny) ℚ := diagonal fun i => if (i : Nat) < N.nN then 1 else -1
-    let J : Matrix (Fin ns) (Fin ns) ℚ := diagonal fun k => if (k : Nat) < cvals.length then -1 else 1
-    Jn * toM ny ns (ssDQ N cvals lvals Delta) = -(toM ny ns (ssDQ N cvals lvals Delta) * J)
-    ∧ ∀ y : Fin ny → ℚ, 0 ≤ y ⬝ᵥ (Jn * toM ny ny (ssAtilde id N)) *ᵥ y
+section model
+variable {L F : Type} [DecidableEq L] [LabelOrd L] [Field F] [LinearOrder F] [IsStrictOrderedRing F]
+
+/-- the two structural hypotheses of `C11_lyapunov`, for every network: signature identity and
+non-negative resistive form (`Jn = diag(+1 node rows, −1 voltage-source rows)`,
+`J = diag(−1 capacitor states, +1 inductor states)`) -/
+theorem C11_structure (N : Net L F) (cvals lvals : ValDict F) {Delta : List (List F)} (wf : N.WF)
+    (hD : ssDelta N cvals = .ok Delta) (hpos : ∀ b ∈ N.branches, 0 ≤ b.e.Yfin) :
+    (diagonal fun i : Fin N.nY => if (i : Nat) < N.nN then (1 : F) else -1)
+        * toM N.nY (ssNStates N cvals lvals) (ssDQ N cvals lvals Delta)
+      = -(toM N.nY (ssNStates N cvals lvals) (ssDQ N cvals lvals Delta)
+          * diagonal fun k : Fin (ssNStates N cvals lvals) => if (k : Nat) < cvals.length then (-1 : F) else 1)
+    ∧ ∀ y : Fin N.nY → F,
+        0 ≤ y ⬝ᵥ ((diagonal fun i : Fin N.nY => if (i : Nat) < N.nN then (1 : F) else -1)
+                  * toM N.nY N.nY N.mnaA) *ᵥ y :=
+  ⟨model_signature N cvals lvals wf.ids_nodup hD, model_passive N wf hpos⟩
+
+/-- **Passivity of the derived dynamics, for the model**: `xᵀ(W A + Aᵀ W)x ≤ 0` for every `x`, with
+`W = diag(C…, L…)` in dictionary order -/
+theorem C11_model_lyapunov {N : Net L F} {cvals lvals : ValDict F} {Ainv S Delta : List (List F)} {m : SSMats F}
+    (h : RLC N cvals lvals) (hD : ssDelta N cvals = .ok Delta)
+    (hm : stateSpaceMatrices N cvals lvals Ainv S = .ok m)
+    (hc : ModelCert id N cvals lvals Ainv S Delta)
+    (hpos : ∀ b ∈ N.branches, 0 ≤ b.e.Yfin) (x : Fin (ssNStates N cvals lvals) → F) :
+    let W : Matrix (Fin (ssNStates N cvals lvals)) (Fin (ssNStates N cvals lvals)) F :=
+      diagonal fun k => (cvals.vals ++ lvals.vals).getD k 0
+    let A := toM (ssNStates N cvals lvals) (ssNStates N cvals lvals) m.A
+    x ⬝ᵥ (W * A + Aᵀ * W) *ᵥ x ≤ 0 :=
+  model_lyapunov h hD hm hc hpos x
+
+/-- **Stability, for the model**: with positive C, L every eigenpair `λ = α + jβ`, `v = a + jb ≠ 0` of
+the model's `A` has `α ≤ 0` -/
+theorem C11_model_eig {N : Net L F} {cvals lvals : ValDict F} {Ainv S Delta : List (List F)} {m : SSMats F}
+    (h : RLC N cvals lvals) (hD : ssDelta N cvals = .ok Delta)
+    (hm : stateSpaceMatrices N cvals lvals Ainv S = .ok m)
+    (hc : ModelCert id N cvals lvals Ainv S Delta)
+    (hpos : ∀ b ∈ N.branches, 0 ≤ b.e.Yfin)
+    (hval : ∀ k : Fin (ssNStates N cvals lvals), 0 < (cvals.vals ++ lvals.vals).getD k 0)
+    (α β : F) (a b : Fin (ssNStates N cvals lvals) → F) (hab : a ≠ 0 ∨ b ≠ 0)
+    (ha : toM _ _ m.A *ᵥ a = α • a - β • b) (hb : toM _ _ m.A *ᵥ b = β • a + α • b) : α ≤ 0 :=
+  eig_re_nonpos _ _ hval (fun x => model_lyapunov h hD hm hc hpos x) α β a b hab ha hb
+
+end model
 
 end CC
